@@ -357,18 +357,37 @@ func (it writerItem) snippet() snippet.Snippet {
 }
 
 func (c writerCase) Line() string { return "" }
+// second: the package of the second file the same snippet values are rendered into — the package of the first item where
+// that is another one than the first file's, so that one reference changes sides (qualified there, bare here)
+func (c writerCase) second() string {
+	if len(c.Items) > 0 && c.Items[0].Path != c03Self && c.Items[0].Kind != "valuepair" {
+		return c.Items[0].Path
+	}
+	return "example.com/other/self"
+}
+
 func (c writerCase) Run() string {
 	return guard(func() string {
-		tr := namer.NewDefaultImportTracker()
-		ns := namer.NameSystems{"raw": namer.NewRawNamer(c03Self, tr)}
-		b := bytes.NewBuffer(nil)
-		w := gengo.NewSnippetWriter(b, ns)
+		// the snippet values are built once and rendered into two files of two packages, each with a tracker and a
+		// namer of its own: a snippet is a description of text, what it renders to is decided by the file it goes into
+		snips := make([]snippet.Snippet, len(c.Items))
 		for i, it := range c.Items {
-			fmt.Fprintf(b, "var _%d ", i)
-			w.Render(it.snippet())
-			b.WriteString("\n")
+			snips[i] = it.snippet()
 		}
-		return "ok " + hx(b.String()) + " imports " + showImports(tr.Imports())
+		var outs []string
+		for _, self := range []string{c03Self, c.second()} {
+			tr := namer.NewDefaultImportTracker()
+			ns := namer.NameSystems{"raw": namer.NewRawNamer(self, tr)}
+			b := bytes.NewBuffer(nil)
+			w := gengo.NewSnippetWriter(b, ns)
+			for i := range c.Items {
+				fmt.Fprintf(b, "var _%d ", i)
+				w.Render(snips[i])
+				b.WriteString("\n")
+			}
+			outs = append(outs, hx(b.String())+" imports "+showImports(tr.Imports()))
+		}
+		return "ok " + strings.Join(outs, " ;; ")
 	})
 }
 
@@ -376,7 +395,23 @@ func (c writerCase) Oracle(out string) string {
 	if out == "panic" {
 		return "rendering references through a SnippetWriter panicked"
 	}
-	parts := strings.SplitN(strings.TrimPrefix(out, "ok "), " imports ", 2)
+	files := strings.Split(strings.TrimPrefix(out, "ok "), " ;; ")
+	for i, self := range []string{c03Self, c.second()} {
+		if i >= len(files) {
+			return "no second file"
+		}
+		if msg := c.judgeFile(self, files[i]); msg != "" {
+			if i == 1 {
+				msg = "the same snippet values rendered into a second file, of package " + self + ": " + msg
+			}
+			return msg
+		}
+	}
+	return ""
+}
+
+func (c writerCase) judgeFile(self, file string) string {
+	parts := strings.SplitN(file, " imports ", 2)
 	body := unhx(parts[0])
 	imports := parseImports(parts[1])
 	want := map[string]bool{}
@@ -386,7 +421,7 @@ func (c writerCase) Oracle(out string) string {
 			continue
 		}
 		for _, p := range append([]string{it.Path}, it.Args...) {
-			if p != c03Self {
+			if p != self {
 				want[p] = true
 			}
 		}
